@@ -59,22 +59,23 @@ Record dstate := mkD {
   d_window : bool;     (* _window_bounds is not None *)
   d_scale : Z;         (* _draw_scale *)
   d_angle : Z;         (* _draw_angle *)
-  d_attr : Z           (* _last_attr *)
+  d_attr : Z;          (* _last_attr *)
+  d_nattr : Z          (* _num_attr: number of attributes of the mode *)
 }.
 
 Definition set_pen (st : dstate) (p : pt) : dstate :=
-  mkD p (d_last st) (d_window st) (d_scale st) (d_angle st) (d_attr st).
+  mkD p (d_last st) (d_window st) (d_scale st) (d_angle st) (d_attr st) (d_nattr st).
 Definition set_scale (st : dstate) (n : Z) : dstate :=
-  mkD (d_pen st) (d_last st) (d_window st) n (d_angle st) (d_attr st).
+  mkD (d_pen st) (d_last st) (d_window st) n (d_angle st) (d_attr st) (d_nattr st).
 Definition set_angle (st : dstate) (n : Z) : dstate :=
-  mkD (d_pen st) (d_last st) (d_window st) (d_scale st) n (d_attr st).
+  mkD (d_pen st) (d_last st) (d_window st) (d_scale st) n (d_attr st) (d_nattr st).
 Definition set_attr (st : dstate) (n : Z) : dstate :=
-  mkD (d_pen st) (d_last st) (d_window st) (d_scale st) (d_angle st) n.
+  mkD (d_pen st) (d_last st) (d_window st) (d_scale st) (d_angle st) n (d_nattr st).
 
 (* end of _draw: `if self._window_bounds is None: self._last_point = self._draw_current` *)
 Definition finish (st : dstate) : dstate :=
   if d_window st then st
-  else mkD (d_pen st) (d_pen st) (d_window st) (d_scale st) (d_angle st) (d_attr st).
+  else mkD (d_pen st) (d_pen st) (d_window st) (d_scale st) (d_angle st) (d_attr st) (d_nattr st).
 
 (* plot, goback: locals of one _draw activation *)
 Definition flags := (bool * bool)%type.
@@ -122,7 +123,10 @@ Fixpoint exec (c : cmd) (fl : flags) (st : dstate) {struct c} : flags * dstate *
   | PreB => ((false, snd fl), st, [], Done)
   | PreN => ((fst fl, true), st, [], Done)
   | SetScale n => if in_range draw_range_scale n then (fl, set_scale st n, [], Done) else raise_ifc fl st
-  | SetColour n => if in_range draw_range_attr n then (fl, set_attr st n, [], Done) else raise_ifc fl st
+  | SetColour n =>
+      (* range-checked, then clamped to the attributes of the mode (regenerated expression) *)
+      if in_range draw_range_attr n then (fl, set_attr st (draw_colour (d_nattr st) n), [], Done)
+      else raise_ifc fl st
   | SetAngle n =>
       if in_range draw_range_angle_a n then (fl, set_angle st (90 * n), [], Done) else raise_ifc fl st
   | TurnAngle n =>
@@ -168,7 +172,8 @@ Record gstate := mkG {
   g_scale : Z;
   g_angle : Z;
   g_attr : Z;
-  g_text : bool        (* _mode.is_text_mode *)
+  g_text : bool;       (* _mode.is_text_mode *)
+  g_nattr : Z          (* _num_attr *)
 }.
 
 Definition current (g : gstate) : pt := match g_cur g with Some p => p | None => g_last g end.
@@ -178,9 +183,10 @@ Definition draw (g : gstate) (cmds : list cmd) : gstate * list seg * status :=
   if g_text g then (g, [], Raised draw_IFC)
   else
     let '(st, sg, stat) :=
-      run cmds fresh (mkD (current g) (g_last g) (g_window g) (g_scale g) (g_angle g) (g_attr g)) in
+      run cmds fresh (mkD (current g) (g_last g) (g_window g) (g_scale g) (g_angle g) (g_attr g) (g_nattr g)) in
     let st' := match stat with Done => finish st | _ => st end in
-    (mkG (Some (d_pen st')) (d_last st') (d_window st') (d_scale st') (d_angle st') (d_attr st') false, sg, stat).
+    (mkG (Some (d_pen st')) (d_last st') (d_window st') (d_scale st') (d_angle st') (d_attr st') false
+         (d_nattr st'), sg, stat).
 
 Definition dr_state (r : gstate * list seg * status) : gstate := fst (fst r).
 Definition dr_segs (r : gstate * list seg * status) : list seg := snd (fst r).
@@ -471,7 +477,10 @@ Definition no_abs (ms : list move) : bool := forallb (fun m => negb (m_abs m && 
 
 (* the position-free pass over the commands: which moves happen (flags, scale, colour, X nesting, and
    where the statement stops).  Angle commands are outside (the theorems assume `angle_free`). *)
-Record pst := mkP { p_scale : Z; p_attr : Z }.
+Record pst := mkP { p_scale : Z; p_attr : Z; p_nattr : Z }.
+
+(* the colour C n selects: n brought into the attribute range 0 .. nattr-1 of the mode *)
+Definition clamp_attr (nattr n : Z) : Z := Z.min (nattr - 1) (Z.max 0 n).
 
 Definition plan_move (fl : flags) (ps : pst) (ab : bool) (v : pt) : flags * pst * list move * status :=
   (fresh, ps, [mkmove ab v (fst fl) (snd fl) (p_attr ps)], Done).
@@ -492,9 +501,12 @@ Fixpoint plan1 (c : cmd) (fl : flags) (ps : pst) {struct c} : flags * pst * list
       else (fl, ps, [], Raised 5)
   | PreB => ((false, snd fl), ps, [], Done)
   | PreN => ((fst fl, true), ps, [], Done)
-  | SetScale n => if in_range (1, 255) n then (fl, mkP n (p_attr ps), [], Done) else (fl, ps, [], Raised 5)
+  | SetScale n =>
+      if in_range (1, 255) n then (fl, mkP n (p_attr ps) (p_nattr ps), [], Done) else (fl, ps, [], Raised 5)
   | SetColour n =>
-      if in_range (-99999, 99999) n then (fl, mkP (p_scale ps) n, [], Done) else (fl, ps, [], Raised 5)
+      if in_range (-99999, 99999) n
+      then (fl, mkP (p_scale ps) (clamp_attr (p_nattr ps) n) (p_nattr ps), [], Done)
+      else (fl, ps, [], Raised 5)
   | SetAngle _ | TurnAngle _ | Unsupported => (fl, ps, [], Excluded)
   | Sub _ body =>
       let '(ps', ms, stat) :=
